@@ -120,6 +120,21 @@ fn apply_real(root: &Path, op: &Op, style: SaveStyle) {
                 let _ = fs::write(&p, bytes);
             }
         }
+        Op::TamperOutput { output, body, source } => {
+            let o = root.join(output);
+            match body.as_ref().and_then(|b| b.bytes()) {
+                Some(bytes) => {
+                    let _ = fs::write(&o, bytes);
+                }
+                None => {
+                    let _ = fs::remove_file(&o);
+                }
+            }
+            let p = root.join(source);
+            if let Ok(bytes) = fs::read(&p) {
+                let _ = fs::write(&p, bytes);
+            }
+        }
         Op::RemoveFile { path } => {
             let _ = fs::remove_file(root.join(path));
         }
@@ -338,6 +353,7 @@ fn op_paths(op: &Op) -> Vec<String> {
         Op::Edit { path, .. } | Op::Add { path, .. } | Op::Touch { path } => vec![path.clone()],
         Op::RemoveFile { path } | Op::RemoveDir { path } => vec![path.clone()],
         Op::Rename { from, to } => vec![from.clone(), to.clone()],
+        Op::TamperOutput { source, .. } => vec![source.clone()],
         _ => Vec::new(),
     }
 }
